@@ -26,6 +26,57 @@ def latin1(e):
     return G.E(m(e.msgid), m(e.msgctxt), m(e.msgid_plural), m(e.msgstr), {k: m(v) for k, v in e.msgstr_plural.items()}, [m(f) for f in e.flags], e.obsolete,
                m(e.previous_msgctxt), m(e.previous_msgid), m(e.previous_msgid_plural), m(e.comment))
 
+def tree_chars(pattern, flags=0):
+    """every literal / range end point of the CURRENT regex tree (look-arounds included), and its neighbours"""
+    import re._parser as P
+    out = set()
+    def walk(x):
+        if isinstance(x, (list, tuple, P.SubPattern)):
+            items = list(x)
+            if len(items) == 2 and str(items[0]) in ('LITERAL', 'NOT_LITERAL') and isinstance(items[1], int):
+                out.update((items[1] - 1, items[1], items[1] + 1))
+            elif len(items) == 2 and str(items[0]) == 'RANGE':
+                a, b = items[1]
+                out.update((a - 1, a, b, b + 1))
+            else:
+                for y in items:
+                    walk(y)
+    try:
+        walk(P.parse(pattern, flags))
+    except Exception:
+        pass
+    return sorted(chr(c) for c in out if 0 <= c < 0x110000 and not 0xd800 <= c <= 0xdfff)
+
+def directed_catalogs(rng, big):
+    """one-message catalogs whose translation / flag / comment is a string directed at one of the four regexes, generated from the
+    regex trees as they are NOW in /repo (so that a changed class changes the inputs)"""
+    PO = {'is_template': False, 'is_binary': False, 'hidden': False, 'encoding': True}
+    POT = dict(PO, is_template=True)
+    out = []
+    try:
+        from lib import check, gettext
+        uchars = tree_chars(check.find_unusual_characters.__self__.pattern) + ['a', '_']
+        mchars = tree_chars(gettext.search_for_conflict_marker.__self__.pattern, gettext.search_for_conflict_marker.__self__.flags)
+    except Exception:
+        uchars, mchars = ['\x1b', '[', 'a', '\xbf'], ['#', '-', ' ']
+    pairs = [a + b for a in uchars for b in uchars]
+    if not big:
+        pairs = rng.sample(pairs, min(len(pairs), 1500))
+    for s in uchars + pairs:
+        out.append((PO, [G.E('m', msgstr=s)]))
+    k = 3000 if big else 400
+    for s in G.marker_strings(rng, k)[: (20000 if big else 1500)]:
+        out.append((PO, [G.E('m', msgstr=s)]))
+    for c in mchars:
+        out.append((PO, [G.E('m', msgstr='#-#-#-#-#  ' + c + '  #-#-#-#-#')]))
+        out.append((PO, [G.E('m', msgstr='#-#-#-#-#  x  #-#-#-#-#' + c)]))
+        out.append((PO, [G.E('m', msgstr=c + '#-#-#-#-#  x  #-#-#-#-#')]))
+    for s in G.range_strings(rng, k)[: (20000 if big else 1500)]:
+        out.append((PO, [G.E('m', msgid_plural='ms', msgstr=None, msgstr_plural={0: 'x', 1: 'y'}, flags=[s, rng.choice(['range:1..2', 'range:5..7', s])])]))
+    for s in G.gate_strings(rng, k)[: (20000 if big else 1500)]:
+        out.append((POT, [G.E('<b>x', msgstr='', comment=s)]))
+    return out
+
 def case_json(ctx, entries):
     return {'ctx': ctx, 'entries': [e.as_dict() for e in entries]}
 
@@ -72,6 +123,7 @@ def main():
     cases = [f for _, files in seeds for f in files]
     n_cat = (60000 if big else 7000) * boost
     cases += [G.gen_catalog(rng, fmts) for _ in range(n_cat)]
+    cases += directed_catalogs(rng, big)
     results = [M.run_impl(ctx, entries) for ctx, entries in cases]     # (line, attributed calls, tail)
 
     # ---------------- correspondence: real code vs Lean model
